@@ -77,7 +77,7 @@ def gen(shard, tier):
                     yield {'kind': 'static', 'seq': seq, 'rule': ri, 'pre': pre}, 1 + (pre is not None), True
         else:
             for labs in [[l] for l in LABELS] + LABEL_PAIRS:
-                for mod in (None, 'Oxidation', 'Formula:C2H2O', '10', 'Label:13C(6)'):
+                for mod in (None, 'Oxidation', 'Formula:C2H2O', '10', 'Label:13C(6)', 'Formula:C2H4OS'):
                     yield {'kind': 'label', 'seq': seq, 'labels': labs, 'mod': mod}, len(labs) + (mod is not None), True
 
 
